@@ -1798,3 +1798,597 @@ example :
   decide
 
 end Epytext
+
+/-! ## 15. reST consolidated entries: only the separator is removed -/
+namespace Rst
+open Epytext (pyIsSpace)
+
+theorem lstrip_of_head {d : List Char} (h : ∀ c, d.head? = some c → pyIsSpace c = false) : lstrip d = d := by
+  cases d with
+  | nil => rfl
+  | cons c cs => simp [lstrip, List.dropWhile, h c rfl]
+
+theorem lstrip_append (ws d : List Char) (hws : ∀ c ∈ ws, pyIsSpace c = true)
+    (hd : ∀ c, d.head? = some c → pyIsSpace c = false) : lstrip (ws ++ d) = d := by
+  induction ws with
+  | nil => exact lstrip_of_head hd
+  | cons a as ih =>
+    have ha := hws a (by simp)
+    have := ih (fun c hc => hws c (by simp [hc]))
+    simpa [lstrip, List.dropWhile, ha] using this
+
+/-- **the description of a consolidated-field entry keeps its own beginning**: after one separator
+(`:`, `-`, ` :`, ` -`) and any blanks, the text is kept from its first non-blank character on — also when
+that character is itself `-` or `:` (`-1 disables…`, `--verbose`, `:-)`) -/
+theorem stripSeparator_keeps_description (sep ws d : List Char)
+    (hsep : sep = [':'] ∨ sep = ['-'] ∨ sep = [' ', '-'] ∨ sep = [' ', ':'])
+    (hws : ∀ c ∈ ws, pyIsSpace c = true) (hd : ∀ c, d.head? = some c → pyIsSpace c = false) :
+    stripSeparator (sep ++ ws ++ d) = d := by
+  rcases hsep with rfl | rfl | rfl | rfl
+  · simp [stripSeparator, lstrip_append ws d hws hd]
+  · simp [stripSeparator, lstrip_append ws d hws hd]
+  · have h1 : ¬ ((' ' : Char) = ':') := by decide
+    have h2 : ¬ ((' ' : Char) = '-') := by decide
+    simp [stripSeparator, h1, h2, lstrip_append ws d hws hd]
+  · have h1 : ¬ ((' ' : Char) = ':') := by decide
+    have h2 : ¬ ((' ' : Char) = '-') := by decide
+    simp [stripSeparator, h1, h2, lstrip_append ws d hws hd]
+
+/-- text that does not start with a separator is not touched -/
+theorem stripSeparator_no_separator (c : Char) (t : List Char) (h1 : c ≠ ':') (h2 : c ≠ '-')
+    (h3 : ¬ (c = ' ' ∧ (t.head? = some '-' ∨ t.head? = some ':'))) : stripSeparator (c :: t) = c :: t := by
+  unfold stripSeparator
+  have hA : ¬ ([c] = [] ∨ [c] = [':'] ∨ [c] = ['-']) := by simp [h1, h2]
+  simp only [List.take, hA, if_false]
+  cases t with
+  | nil => simp
+  | cons b bs =>
+    have hB : ¬ ([c, b] = [' ', '-'] ∨ [c, b] = [' ', ':']) := by
+      intro h
+      rcases h with h | h
+      · simp at h; exact h3 ⟨h.1, Or.inl (by simp [h.2])⟩
+      · simp at h; exact h3 ⟨h.1, Or.inr (by simp [h.2])⟩
+    simp only [List.take, hB, if_false]
+
+example : stripSeparator ": -1 disables the limit".toList = "-1 disables the limit".toList ∧
+    stripSeparator " - --verbose".toList = "--verbose".toList ∧ stripSeparator ": :-) x".toList = ":-) x".toList := by
+  decide
+
+end Rst
+
+/-! ## 16. `_handlePropertyDef`: no field of a property docstring is lost -/
+namespace Property
+
+/-- where a text can end up -/
+def PState.holds (st : PState) (t : Nat) : Prop :=
+  st.description = some t ∨ st.parsedType = some t ∨ ∃ f ∈ st.otherFields, f.text = t
+
+theorem pstep_keeps_other (st : PState) (f g : PField) (h : g ∈ st.otherFields) : g ∈ (pstep st f).otherFields := by
+  unfold pstep
+  cases f.tag <;> simp only
+  · split <;> simp [h]
+  · exact h
+  · simp [h]
+
+theorem foldl_keeps_other (fs : List PField) : ∀ (st : PState) (g : PField), g ∈ st.otherFields →
+    g ∈ (fs.foldl pstep st).otherFields := by
+  induction fs with
+  | nil => intro st g h; exact h
+  | cons f fs ih => intro st g h; exact ih _ g (pstep_keeps_other st f g h)
+
+/-- **every field but a repeated `@rtype` / a `@return` that becomes the description is kept as a field**;
+in particular, when the docstring has its own description every `@return` stays a field (c0ae38c) -/
+theorem return_kept_when_body (pre post : List PField) (f : PField) (hf : f.tag = .ret) (st : PState)
+    (hb : (pre.foldl pstep st).hasBody = true) :
+    f ∈ ((pre ++ f :: post).foldl pstep st).otherFields := by
+  rw [List.foldl_append, List.foldl_cons]
+  apply foldl_keeps_other
+  simp [pstep, hf, hb]
+
+theorem hasBody_mono (fs : List PField) : ∀ st : PState, st.hasBody = true → (fs.foldl pstep st).hasBody = true := by
+  induction fs with
+  | nil => intro st h; exact h
+  | cons f fs ih =>
+    intro st h
+    apply ih
+    unfold pstep
+    cases f.tag <;> simp [h]
+
+/-- a docstring with a description: every `@return` and every other field stays a field, the last `@rtype`
+is the property's type -/
+theorem fields_kept_with_body (fields : List PField) (f : PField) (hf : f ∈ fields) (ht : f.tag ≠ .rtype) :
+    f ∈ (handle true fields).otherFields := by
+  obtain ⟨pre, post, rfl⟩ := List.append_of_mem hf
+  unfold handle
+  rw [List.foldl_append, List.foldl_cons]
+  apply foldl_keeps_other
+  have hb := hasBody_mono pre ⟨true, none, none, []⟩ rfl
+  cases htag : f.tag with
+  | ret => simp [pstep, htag, hb]
+  | rtype => exact absurd htag ht
+  | other => simp [pstep, htag]
+
+example : (handle true [⟨.ret, 1, true⟩, ⟨.rtype, 2, true⟩, ⟨.other, 3, true⟩]) =
+      ⟨true, none, some 2, [⟨.ret, 1, true⟩, ⟨.other, 3, true⟩]⟩ ∧
+    (handle false [⟨.ret, 1, true⟩, ⟨.ret, 4, true⟩]) = ⟨true, some 1, none, [⟨.ret, 4, true⟩]⟩ := by
+  decide
+
+end Property
+
+/-! ## 17. the Parameters table: a described or typed parameter has its row -/
+namespace Params
+
+theorem lookup_map_set {β} (k k' : Nat) (v : β) : ∀ (l : List (Nat × β)),
+    (l.map (fun p => if p.1 == k then (k, v) else p)).lookup k' =
+      if k' = k then (if l.any (·.1 == k) then some v else none) else l.lookup k'
+  | [] => by simp [List.lookup]
+  | (a, b) :: ps => by
+    have ih := lookup_map_set k k' v ps
+    by_cases hak : a = k
+    · subst hak
+      by_cases hk : k' = a
+      · subst hk; simp [List.lookup]
+      · have h1 : (k' == a) = false := by simpa using hk
+        simp only [List.map_cons, beq_self_eq_true, if_true, List.lookup, h1, hk, if_false] at ih ⊢
+        exact ih
+    · have h1 : (a == k) = false := by simpa using hak
+      by_cases hka : k' = a
+      · subst hka
+        simp [List.lookup, h1, hak]
+      · have h2 : (k' == a) = false := by simpa using hka
+        simp only [List.map_cons, h1, Bool.false_eq_true, if_false, List.lookup, h2, List.any_cons, Bool.false_or] at ih ⊢
+        exact ih
+
+theorem lookup_append_single {β} (k k' : Nat) (v : β) : ∀ (l : List (Nat × β)),
+    (l ++ [(k, v)]).lookup k' = match l.lookup k' with
+      | some x => some x
+      | none => if k' = k then some v else none
+  | [] => by
+    by_cases h : k' = k
+    · subst h; simp [List.lookup]
+    · have : (k' == k) = false := by simpa using h
+      simp [List.lookup, this, h]
+  | (a, b) :: ps => by
+    have ih := lookup_append_single k k' v ps
+    by_cases hka : k' = a
+    · subst hka; simp [List.lookup]
+    · have h2 : (k' == a) = false := by simpa using hka
+      simp only [List.cons_append, List.lookup, h2]
+      exact ih
+
+theorem lookup_none_of_not_any {β} (k : Nat) : ∀ (l : List (Nat × β)), l.any (·.1 == k) = false → l.lookup k = none
+  | [], _ => rfl
+  | (a, b) :: ps, h => by
+    simp only [List.any_cons, Bool.or_eq_false_iff] at h
+    have hka : (k == a) = false := by
+      have : a ≠ k := by simpa using h.1
+      simpa using fun e => this e.symm
+    simp only [List.lookup, hka]
+    exact lookup_none_of_not_any k ps h.2
+
+theorem lookup_dictSet {β} (d : List (Nat × β)) (k k' : Nat) (v : β) :
+    (dictSet d k v).lookup k' = if k' = k then some v else d.lookup k' := by
+  unfold dictSet
+  by_cases hany : d.any (·.1 == k) = true
+  · simp only [hany, if_true]
+    rw [lookup_map_set, hany]
+    simp
+  · have hany' : d.any (·.1 == k) = false := by
+      cases h : d.any (·.1 == k) with
+      | false => rfl
+      | true => exact absurd h hany
+    simp only [hany', Bool.false_eq_true, if_false]
+    rw [lookup_append_single]
+    by_cases hk : k' = k
+    · subst hk
+      simp [lookup_none_of_not_any _ d hany']
+    · simp only [hk, if_false]
+      cases d.lookup k' <;> rfl
+
+/-- the last field that describes `n` -/
+def lastDesc (descs : List Desc) (n : Nat) : Option Desc := (descs.filter (·.name == n)).getLast?
+
+theorem lastDesc_cons (d : Desc) (ds : List Desc) (n : Nat) :
+    lastDesc (d :: ds) n = match lastDesc ds n with
+      | some x => some x
+      | none => if d.name = n then some d else none := by
+  unfold lastDesc
+  by_cases h : d.name = n
+  · have hb : (d.name == n) = true := by simpa using h
+    rw [List.filter_cons, if_pos hb]
+    simp only [h, if_true]
+    cases hf : List.filter (fun x => x.name == n) ds with
+    | nil => simp
+    | cons a as =>
+      rw [List.getLast?_cons_cons]
+      cases hg : (a :: as).getLast? with
+      | none => simp at hg
+      | some x => rfl
+  · have hb : (d.name == n) = false := by simpa using h
+    simp only [List.filter_cons, hb, Bool.false_eq_true, if_false, h]
+    cases (List.filter (fun x => x.name == n) ds).getLast? <;> rfl
+
+theorem foldl_dict_lookup (ds : List Desc) : ∀ (acc : List (Nat × Desc)) (n : Nat),
+    (ds.foldl (fun d p => dictSet d p.name p) acc).lookup n =
+      match lastDesc ds n with
+      | some x => some x
+      | none => acc.lookup n := by
+  induction ds with
+  | nil => intro acc n; simp [lastDesc]
+  | cons d ds ih =>
+    intro acc n
+    rw [List.foldl_cons, ih, lastDesc_cons]
+    cases lastDesc ds n with
+    | some x => rfl
+    | none =>
+      simp only [lookup_dictSet]
+      by_cases h : d.name = n
+      · simp [h]
+      · have : ¬ n = d.name := fun e => h e.symm
+        simp [h, this]
+
+theorem paramsDict_lookup (descs : List Desc) (n : Nat) : (paramsDict descs).lookup n = lastDesc descs n := by
+  unfold paramsDict
+  rw [foldl_dict_lookup]
+  cases lastDesc descs n <;> simp [List.lookup]
+
+theorem lastDesc_name {descs : List Desc} {n : Nat} {d : Desc} (h : lastDesc descs n = some d) : d.name = n := by
+  unfold lastDesc at h
+  have := List.mem_of_getLast? h
+  simpa using (List.mem_filter.mp this).2
+
+theorem lookup_filter_ne {β} (l : List (Nat × β)) (k n : Nat) (h : n ≠ k) :
+    (l.filter (·.1 != k)).lookup n = l.lookup n := by
+  induction l with
+  | nil => rfl
+  | cons p ps ih =>
+    obtain ⟨a, b⟩ := p
+    by_cases hak : a = k
+    · subst hak
+      have h1 : (n == a) = false := by simpa using h
+      simp [List.filter_cons, List.lookup, h1, ih]
+    · have h2 : (a != k) = true := by simpa using hak
+      simp only [List.filter_cons, h2, if_true, List.lookup]
+      cases (n == a) <;> simp [ih]
+
+theorem lookup_mem {β} (l : List (Nat × β)) (n : Nat) (v : β) (h : l.lookup n = some v) : (n, v) ∈ l := by
+  induction l with
+  | nil => simp [List.lookup] at h
+  | cons p ps ih =>
+    obtain ⟨a, b⟩ := p
+    by_cases hna : n = a
+    · subst hna; simp [List.lookup] at h; simp [h]
+    · have : (n == a) = false := by simpa using hna
+      simp only [List.lookup, this] at h
+      simp [ih h]
+
+/-- the loop keeps every documented parameter: it is turned into a row (with its body) or stays in `params` -/
+theorem resolveLoop_keeps (s : Sig) : ∀ (ts : List (Nat × Option PType)) (idx : Nat) (params : List (Nat × Desc))
+    (n : Nat) (d : Desc), params.lookup n = some d → d.name = n →
+    (∃ x ∈ (resolveLoop s ts idx params).1, x.name = n ∧ x.body = d.body) ∨
+    (resolveLoop s ts idx params).2.1.lookup n = some d := by
+  intro ts
+  induction ts with
+  | nil => intro idx params n d h _; right; simpa [resolveLoop] using h
+  | cons t ts ih =>
+    intro idx params n d h hn
+    obtain ⟨name, pt⟩ := t
+    simp only [resolveLoop]
+    cases hl : params.lookup name with
+    | some d' =>
+      simp only
+      by_cases hnn : n = name
+      · subst hnn
+        rw [h] at hl
+        cases hl
+        left
+        exact ⟨_, List.mem_cons_self, hn, rfl⟩
+      · have := ih (idx + 1) (params.filter (·.1 != name)) n d (by rw [lookup_filter_ne _ _ _ hnn]; exact h) hn
+        rcases this with ⟨x, hx, hx1, hx2⟩ | h'
+        · left; exact ⟨x, by simp [hx], hx1, hx2⟩
+        · right; exact h'
+    | none =>
+      simp only
+      split
+      · exact ih (idx + 1) params n d h hn
+      · rcases ih (idx + 1) params n d h hn with ⟨x, hx, hx1, hx2⟩ | h'
+        · left; exact ⟨x, by simp [hx], hx1, hx2⟩
+        · right; exact h'
+
+/-- **a parameter or keyword that has a description has its row**: whatever the signature, whatever other
+fields the docstring contains and in whatever order, the Parameters table is shown and contains a row with
+the name and the text of the last `param` / `keyword` field written for that name -/
+theorem described_parameter_row (s : Sig) (fh : FH) (n : Nat) (d : Desc)
+    (hd : lastDesc fh.descs n = some d) (hb : d.body.isSome = true) :
+    ∃ r ∈ rows s fh, r.name = n ∧ r.body = d.body := by
+  have hname := lastDesc_name hd
+  have hlk : (paramsDict fh.descs).lookup n = some d := by rw [paramsDict_lookup]; exact hd
+  have hne : (paramsDict fh.descs).isEmpty = false := by
+    cases hp : paramsDict fh.descs with
+    | nil => simp [hp, List.lookup] at hlk
+    | cons a as => rfl
+  -- a row x with the name and the body exists after the loop
+  have hx : ∃ x ∈ (resolveLoop s fh.types 0 (paramsDict fh.descs)).1 ++
+      (resolveLoop s fh.types 0 (paramsDict fh.descs)).2.1.map (·.2), x.name = n ∧ x.body = d.body := by
+    rcases resolveLoop_keeps s fh.types 0 _ n d hlk hname with ⟨x, hx, h1, h2⟩ | h'
+    · exact ⟨x, by simp [hx], h1, h2⟩
+    · exact ⟨d, by
+        simp only [List.mem_append, List.mem_map]
+        right
+        exact ⟨(n, d), lookup_mem _ _ _ h', rfl⟩, hname, rfl⟩
+  obtain ⟨x, hxm, hx1, hx2⟩ := hx
+  have hxdoc : x.isDocumented = true := by simp [Desc.isDocumented, hx2, hb]
+  -- the **kwargs step keeps it
+  have hres : ∃ y ∈ resolveTypes s fh, y.name = n ∧ y.body = d.body := by
+    unfold resolveTypes
+    simp only [hne, Bool.not_false, Bool.true_or, if_true]
+    split
+    · exact ⟨x, hxm, hx1, hx2⟩
+    · rename_i k hk
+      by_cases hxk : x = k
+      · subst hxk
+        simp only [hxdoc, Bool.or_true, if_true]
+        exact ⟨x, by simp, hx1, hx2⟩
+      · split
+        · exact ⟨x, by simp [List.mem_erase_of_ne hxk, hxm], hx1, hx2⟩
+        · exact ⟨x, by simp [List.mem_erase_of_ne hxk, hxm], hx1, hx2⟩
+  obtain ⟨y, hym, hy1, hy2⟩ := hres
+  have hany : (resolveTypes s fh).any Desc.isDocumented = true := by
+    rw [List.any_eq_true]
+    exact ⟨y, hym, by simp [Desc.isDocumented, hy2, hb]⟩
+  unfold rows
+  simp only [hany, if_true]
+  exact ⟨y, hym, hy1, hy2⟩
+
+theorem lookup_filter_some {β} (l : List (Nat × β)) (k n : Nat) (v : β)
+    (h : (l.filter (·.1 != k)).lookup n = some v) : l.lookup n = some v := by
+  by_cases hn : n = k
+  · subst hn
+    exfalso
+    have := lookup_mem _ _ _ h
+    simp at this
+  · rwa [lookup_filter_ne _ _ _ hn] at h
+
+/-- the loop makes a row for every name that has a type from the docstring (except an undocumented leading `self`) -/
+theorem resolveLoop_typed (s : Sig) (n t : Nat) (hself : s.selfName ≠ some n) :
+    ∀ (ts : List (Nat × Option PType)) (idx : Nat) (params : List (Nat × Desc)),
+    ts.lookup n = some (some ⟨t, .doc⟩) → (∀ k v, params.lookup k = some v → v.name = k) →
+    (∃ x ∈ (resolveLoop s ts idx params).1, x.name = n ∧ x.type = some t ∧ x.origin = some .doc) ∧
+    (params.isEmpty = false ∨ (resolveLoop s ts idx params).2.2 = true) := by
+  intro ts
+  induction ts with
+  | nil => intro idx params h; simp [List.lookup] at h
+  | cons hd ts ih =>
+    intro idx params h hinv
+    obtain ⟨name, pt⟩ := hd
+    simp only [resolveLoop]
+    by_cases hnn : n = name
+    · subst hnn
+      have hpt : pt = some ⟨t, .doc⟩ := by simpa [List.lookup] using h
+      subst hpt
+      cases hl : params.lookup n with
+      | some d' =>
+        have hname := hinv n d' hl
+        refine ⟨⟨_, List.mem_cons_self, hname, rfl, rfl⟩, Or.inl ?_⟩
+        cases params with
+        | nil => simp [List.lookup] at hl
+        | cons a as => rfl
+      | none =>
+        have hs : (idx == 0 && s.selfName == some n) = false := by
+          have : (s.selfName == some n) = false := by simpa using hself
+          simp [this]
+        simp only [hs, Bool.false_eq_true, if_false]
+        exact ⟨⟨_, List.mem_cons_self, rfl, rfl, rfl⟩, Or.inr (by simp)⟩
+    · have hne : (n == name) = false := by simpa using hnn
+      have h' : ts.lookup n = some (some ⟨t, .doc⟩) := by simpa [List.lookup, hne] using h
+      cases hl : params.lookup name with
+      | some d' =>
+        simp only
+        have hinv' : ∀ k v, (params.filter (·.1 != name)).lookup k = some v → v.name = k :=
+          fun k v hk => hinv k v (lookup_filter_some _ _ _ _ hk)
+        obtain ⟨⟨x, hx, h1, h2, h3⟩, hflag⟩ := ih (idx + 1) _ h' hinv'
+        refine ⟨⟨x, List.mem_cons_of_mem _ hx, h1, h2, h3⟩, ?_⟩
+        rcases hflag with hf | hf
+        · left
+          cases params with
+          | nil => simp [List.lookup] at hl
+          | cons a as => rfl
+        · right; exact hf
+      | none =>
+        simp only
+        split
+        · exact ih (idx + 1) params h' hinv
+        · obtain ⟨⟨x, hx, h1, h2, h3⟩, hflag⟩ := ih (idx + 1) params h' hinv
+          refine ⟨⟨x, List.mem_cons_of_mem _ hx, h1, h2, h3⟩, ?_⟩
+          rcases hflag with hf | hf
+          · left; exact hf
+          · right; simp [hf]
+
+theorem paramsDict_inv (descs : List Desc) : ∀ k v, (paramsDict descs).lookup k = some v → v.name = k := by
+  intro k v h
+  rw [paramsDict_lookup] at h
+  exact lastDesc_name h
+
+/-- **a parameter or keyword whose type is given in the docstring has its row with that type** (also when it
+has no description at all: the table is still shown) — except the leading `self` / `cls` of a method, see
+`type_of_self_counterexample` -/
+theorem typed_parameter_row (s : Sig) (fh : FH) (n t : Nat)
+    (ht : fh.types.lookup n = some (some ⟨t, .doc⟩)) (hself : s.selfName ≠ some n) :
+    ∃ r ∈ rows s fh, r.name = n ∧ r.type = some t := by
+  obtain ⟨⟨x, hx, hx1, hx2, hx3⟩, hflag⟩ :=
+    resolveLoop_typed s n t hself fh.types 0 (paramsDict fh.descs) ht (paramsDict_inv fh.descs)
+  have hxdoc : x.isDocumented = true := by simp [Desc.isDocumented, hx3]
+  have hany : (!(paramsDict fh.descs).isEmpty || (resolveLoop s fh.types 0 (paramsDict fh.descs)).2.2) = true := by
+    rcases hflag with h | h <;> simp [h]
+  have hres : ∃ y ∈ resolveTypes s fh, y.name = n ∧ y.type = some t ∧ y.isDocumented = true := by
+    unfold resolveTypes
+    simp only [hany, if_true]
+    have hxm : x ∈ (resolveLoop s fh.types 0 (paramsDict fh.descs)).1 ++
+        (resolveLoop s fh.types 0 (paramsDict fh.descs)).2.1.map (·.2) := by simp [hx]
+    split
+    · exact ⟨x, hxm, hx1, hx2, hxdoc⟩
+    · rename_i k hk
+      by_cases hxk : x = k
+      · subst hxk
+        simp only [hxdoc, Bool.or_true, if_true]
+        exact ⟨x, by simp, hx1, hx2, hxdoc⟩
+      · split
+        · exact ⟨x, by simp [List.mem_erase_of_ne hxk, hxm], hx1, hx2, hxdoc⟩
+        · exact ⟨x, by simp [List.mem_erase_of_ne hxk, hxm], hx1, hx2, hxdoc⟩
+  obtain ⟨y, hym, hy1, hy2, hy3⟩ := hres
+  have hany2 : (resolveTypes s fh).any Desc.isDocumented = true := by
+    rw [List.any_eq_true]; exact ⟨y, hym, hy3⟩
+  unfold rows
+  simp only [hany2, if_true]
+  exact ⟨y, hym, hy1, hy2⟩
+
+/-- after `@type n: t` the dict holds that type (later `@type n` fields replace it) -/
+theorem types_after_type (fh : FH) (n t : Nat) :
+    (step fh (.type n t)).types.lookup n = some (some ⟨t, .doc⟩) := by
+  simp [step, lookup_dictSet]
+
+/-- the same from the fields: after any sequence of fields, the last `@param n` / `@keyword n` is `lastDesc` -/
+theorem lastDesc_after_param (fh : FH) (n t : Nat) :
+    lastDesc (step fh (.param n t)).descs n = some ⟨n, some t, false, none, none⟩ ∧
+    lastDesc (step fh (.keyword n t)).descs n = some ⟨n, some t, true, none, none⟩ := by
+  constructor <;> simp [step, lastDesc, List.filter_append]
+
+/-- non-vacuity, and the shape of C09-r2-3: `**kw` only, two keywords with a type and an empty description —
+the table is shown with both names and both types -/
+example :
+    rows ⟨[(3, none)], some 3, none⟩ (run ⟨[(3, none)], some 3, none⟩ [.keyword 5 30, .type 5 31, .type 6 32, .keyword 6 33]) =
+      [⟨5, some 30, true, some 31, some .doc⟩, ⟨6, some 33, true, some 32, some .doc⟩] := by
+  decide
+
+/-- what the table does NOT show (`@type self: …` on a method, no `@param self`): the row of `self` is skipped
+although its type comes from the docstring — counterexample to "every type field is shown" -/
+theorem type_of_self_counterexample :
+    rows ⟨[(7, none), (1, none)], none, some 7⟩ (run ⟨[(7, none), (1, none)], none, some 7⟩ [.type 7 30]) = [] ∧
+    (run ⟨[(7, none), (1, none)], none, some 7⟩ [.type 7 30]).reports = [] := by
+  decide
+
+end Params
+
+/-! ## 18. `extract_fields`: the last `ivar`/`cvar`/`var` text and the last `type` text of a name are held by its attribute -/
+namespace Attrs
+open Params (dictSet lookup_dictSet)
+
+def isVar (t : VTag) : Bool := t == .ivar || t == .cvar || t == .var
+
+theorem astep_other_name (st : AState) (i : Nat) (f : AField) (n : Nat) (h : f.name ≠ some n) :
+    (astep st i f).attrs.lookup n = st.attrs.lookup n := by
+  unfold astep
+  split
+  · rfl
+  · cases hn : f.name with
+    | none => rfl
+    | some m =>
+      have : n ≠ m := fun e => h (by rw [hn, e])
+      simp [lookup_dictSet, this]
+
+theorem astep_var (st : AState) (i : Nat) (f : AField) (n : Nat) (hv : isVar f.tag = true) (hn : f.name = some n) :
+    ∃ v, (astep st i f).attrs.lookup n = some v ∧ v.doc = some f.text ∧ v.hasKind = true := by
+  have h1 : f.tag ≠ .other := by intro e; simp [isVar, e] at hv
+  have h2 : f.tag ≠ .type := by intro e; simp [isVar, e] at hv
+  simp [astep, h1, h2, hn, lookup_dictSet]
+
+theorem astep_type (st : AState) (i : Nat) (f : AField) (n : Nat) (ht : f.tag = .type) (hn : f.name = some n) :
+    ∃ v, (astep st i f).attrs.lookup n = some v ∧ v.type = some f.text := by
+  simp [astep, ht, hn, lookup_dictSet]
+
+/-- a later field that is not a `var`-kind field for `n` keeps `doc` and `hasKind` of `n` -/
+theorem astep_keeps_doc (st : AState) (i : Nat) (f : AField) (n : Nat) (v : AttrV)
+    (hv : st.attrs.lookup n = some v) (hf : ¬ (isVar f.tag = true ∧ f.name = some n)) :
+    ∃ v', (astep st i f).attrs.lookup n = some v' ∧ v'.doc = v.doc ∧ v'.hasKind = v.hasKind := by
+  by_cases hn : f.name = some n
+  · have hnv : isVar f.tag = false := by
+      cases h : isVar f.tag with
+      | false => rfl
+      | true => exact absurd ⟨h, hn⟩ hf
+    by_cases ho : f.tag = .other
+    · exact ⟨v, by simp [astep, ho, hv], rfl, rfl⟩
+    · have ht : f.tag = .type := by
+        cases htag : f.tag <;> simp [isVar, htag] at hnv ho ⊢
+      simp [astep, ht, hn, lookup_dictSet, hv]
+  · exact ⟨v, by rw [astep_other_name st i f n hn]; exact hv, rfl, rfl⟩
+
+theorem astep_keeps_type (st : AState) (i : Nat) (f : AField) (n : Nat) (v : AttrV)
+    (hv : st.attrs.lookup n = some v) (hf : ¬ (f.tag = .type ∧ f.name = some n)) :
+    ∃ v', (astep st i f).attrs.lookup n = some v' ∧ v'.type = v.type := by
+  by_cases hn : f.name = some n
+  · have ht : f.tag ≠ .type := fun e => hf ⟨e, hn⟩
+    by_cases ho : f.tag = .other
+    · exact ⟨v, by simp [astep, ho, hv], rfl⟩
+    · simp [astep, ho, ht, hn, lookup_dictSet, hv]
+  · exact ⟨v, by rw [astep_other_name st i f n hn]; exact hv, rfl⟩
+
+theorem runFrom_keeps_doc : ∀ (fs : List AField) (st : AState) (i n : Nat) (v : AttrV),
+    st.attrs.lookup n = some v → (∀ f ∈ fs, ¬ (isVar f.tag = true ∧ f.name = some n)) →
+    ∃ v', (runFrom st i fs).attrs.lookup n = some v' ∧ v'.doc = v.doc ∧ v'.hasKind = v.hasKind := by
+  intro fs
+  induction fs with
+  | nil => intro st i n v hv _; exact ⟨v, hv, rfl, rfl⟩
+  | cons f fs ih =>
+    intro st i n v hv hfs
+    obtain ⟨v1, h1, h2, h3⟩ := astep_keeps_doc st i f n v hv (hfs f (by simp))
+    obtain ⟨v2, h4, h5, h6⟩ := ih (astep st i f) (i + 1) n v1 h1 (fun g hg => hfs g (by simp [hg]))
+    exact ⟨v2, h4, h5.trans h2, h6.trans h3⟩
+
+theorem runFrom_keeps_type : ∀ (fs : List AField) (st : AState) (i n : Nat) (v : AttrV),
+    st.attrs.lookup n = some v → (∀ f ∈ fs, ¬ (f.tag = .type ∧ f.name = some n)) →
+    ∃ v', (runFrom st i fs).attrs.lookup n = some v' ∧ v'.type = v.type := by
+  intro fs
+  induction fs with
+  | nil => intro st i n v hv _; exact ⟨v, hv, rfl⟩
+  | cons f fs ih =>
+    intro st i n v hv hfs
+    obtain ⟨v1, h1, h2⟩ := astep_keeps_type st i f n v hv (hfs f (by simp))
+    obtain ⟨v2, h4, h5⟩ := ih (astep st i f) (i + 1) n v1 h1 (fun g hg => hfs g (by simp [hg]))
+    exact ⟨v2, h4, h5.trans h2⟩
+
+theorem runFrom_append (a b : List AField) : ∀ (st : AState) (i : Nat),
+    runFrom st i (a ++ b) = runFrom (runFrom st i a) (i + a.length) b := by
+  induction a with
+  | nil => intro st i; simp [runFrom]
+  | cons f fs ih =>
+    intro st i
+    simp only [List.cons_append, runFrom, List.length_cons]
+    rw [ih]
+    congr 1
+    omega
+
+/-- **the text of the last `@ivar`/`@cvar`/`@var n` of a module or class docstring is the documentation of the
+attribute `n`, and that attribute is displayed** — whatever other fields precede or follow -/
+theorem var_text_held (existing : List (Nat × AttrV)) (pre post : List AField) (f : AField) (n : Nat)
+    (hv : isVar f.tag = true) (hn : f.name = some n)
+    (hpost : ∀ g ∈ post, ¬ (isVar g.tag = true ∧ g.name = some n)) :
+    ∃ v, (extract existing (pre ++ f :: post)).attrs.lookup n = some v ∧ v.doc = some f.text ∧ v.hasKind = true := by
+  unfold extract
+  rw [runFrom_append]
+  simp only [runFrom]
+  obtain ⟨v1, h1, h2, h3⟩ := astep_var (runFrom ⟨existing, []⟩ 0 pre) (0 + pre.length) f n hv hn
+  obtain ⟨v2, h4, h5, h6⟩ := runFrom_keeps_doc post _ (0 + pre.length + 1) n v1 h1 hpost
+  exact ⟨v2, h4, h5.trans h2, h6.trans h3⟩
+
+/-- the text of the last `@type n` is the attribute's `parsed_type` (whether the attribute is displayed is a
+separate matter: `Docstring.kept_iff_in_scope`) -/
+theorem type_text_held (existing : List (Nat × AttrV)) (pre post : List AField) (f : AField) (n : Nat)
+    (ht : f.tag = .type) (hn : f.name = some n)
+    (hpost : ∀ g ∈ post, ¬ (g.tag = .type ∧ g.name = some n)) :
+    ∃ v, (extract existing (pre ++ f :: post)).attrs.lookup n = some v ∧ v.type = some f.text := by
+  unfold extract
+  rw [runFrom_append]
+  simp only [runFrom]
+  obtain ⟨v1, h1, h2⟩ := astep_type (runFrom ⟨existing, []⟩ 0 pre) (0 + pre.length) f n ht hn
+  obtain ⟨v2, h4, h5⟩ := runFrom_keeps_type post _ (0 + pre.length + 1) n v1 h1 hpost
+  exact ⟨v2, h4, h5.trans h2⟩
+
+/-- `get_parsed_type`: a `type` field of the variable's own docstring is shown unless `parsed_type` is already set -/
+theorem shownType_own (own : List Nat) (t : Nat) (ann : Option Nat) : shownType none (own ++ [t]) ann = some t := by
+  simp [shownType]
+
+example : (extract [(1, ⟨none, none, true⟩)] [⟨.type, some 2, 10⟩, ⟨.ivar, some 2, 11⟩, ⟨.type, some 3, 14⟩, ⟨.var, none, 13⟩]).attrs =
+      [(1, ⟨none, none, true⟩), (2, ⟨some 11, some 10, true⟩), (3, ⟨none, some 14, false⟩)] := by
+  decide
+
+end Attrs
